@@ -23,7 +23,7 @@ def parse(core):
 SYS = {
     'map_mvreg':      dict(up=(0,), keyrm=(1, 2), nestedrm=()),
     'map_orswot':     dict(up=(0, 1), keyrm=(2, 3), nestedrm=(1,)),
-    'map_map_orswot': dict(up=(0, 1, 2), keyrm=(3,), nestedrm=(1, 2)),
+    'map_map_orswot': dict(up=(0, 1, 2, 4), keyrm=(3, 5), nestedrm=(1, 2, 4)),
 }
 
 def multi_dot_context(system, ops):
